@@ -27,4 +27,10 @@ META = {
         note="Trusts refcodec's header/AVP framing; the stream half observes the stream number recorded by the in-memory SCTP backend behind the verif hook.",
         technique="runtime monitor: field-by-field mirror oracle on serialised answers; transport-side stream log",
     ),
+    "C04": dict(
+        text="Exploration: 150 thousand (quick) to 10 million (thorough) generated bodies per run are decoded by the real ReadMessage / DecodeGrouped and compared record by record with a reference framer that only follows declared lengths; sampled over an unbounded space, with the payload-length and family classes the property names enumerated by the generator.",
+        design_ref="DESIGN.md section 4, C04",
+        note="Trusts refcodec.Frame (40 lines) and the reference type resolver; payload bytes of leniently decoded fixed-width values and of the known-risk Address classes are not observable and only their Length is compared.",
+        technique="runtime differential monitor: decoder output vs reference framer walking by declared length",
+    ),
 }
